@@ -1,3 +1,4 @@
+import Model.DryParam
 import Lemmas.EngineErase
 /-! C14 — a dry run changes nothing.
 The preview clauses of the component machines of model B.  `World.step` is the product of the components exactly as
@@ -220,5 +221,14 @@ example : withoutPreviews cfg.dry mixed = [.committed 1 l1 1, .gate 1 true, .arr
 example : (runOn (Ack.step cfg.dry) (Ack.init [l0]) mixed).toOption.map (fun s => s.acks.map (·.a)) = some [1] ∧
     (runOn (Ack.step cfg.dry) (Ack.init [l0]) (withoutPreviews cfg.dry mixed)).toOption.map (fun s => s.acks.map (·.a)) = some [1] := by
   decide
+
+/-! ### the preview flag at the API layer -/
+
+/-- the spellings that make a request a preview: yes / true in any case, or 1 — and nothing else among the usual
+candidates (the differential of `checks/c14.py` pins the real parsers of both API versions to `isPreview`) -/
+theorem preview_flag_spellings :
+    (["yes", "YES", "Yes", "yEs", "true", "TRUE", "True", "1"].all DryParam.isPreview = true) ∧
+    (["", "0", "no", "false", "y", "t", "on", "01", " yes", "yes ", "2"].all (fun v => !DryParam.isPreview v) = true) := by
+  decide +kernel
 
 end C14
